@@ -28,6 +28,7 @@ fn main() {
         std::process::exit(2);
     }
     let rest = &args[2..];
+    fsutil::sweep_stale();
     match args[1].as_str() {
         "routing" => routing::main(rest),
         "cfgbuild" => cfgbuild::main(rest),
